@@ -40,7 +40,7 @@ def tla_cfg(spec):
     if spec["kind"] == "bus":
         return {"kind": "bus", "cap": 1, "dset": list(spec.get("dset", (0, 3))), "r": spec["r"]}
     return {"kind": "fifo", "cap": spec.get("depth", 4) + 3 + (1 if spec.get("buffered") else 0),
-            "dset": list(range(2 ** spec.get("dw", 1))), "r": 0}
+            "dset": list(range(2 ** spec.get("dw", 1))), "r": int(spec.get("r", 0))}
 
 
 class Hint:
@@ -51,7 +51,7 @@ class Hint:
     def allowed(self, cfg, ctx, iv):
         hold, lastw, lastr, wf, rf, rw, rr = ctx
         tk, a, b, r = iv
-        if cfg["kind"] == "bus" and ((tk == 1 and rw >= cfg["r"]) or (tk == 2 and rr >= cfg["r"])):
+        if cfg["r"] > 0 and ((tk == 1 and rw >= cfg["r"]) or (tk == 2 and rr >= cfg["r"])):
             return False
         if not wf and (a, b) != lastw:
             return False
@@ -68,7 +68,7 @@ class Hint:
             hold = b
         rw, rr = ctx[5], ctx[6]
         rw, rr = (rw + 1, 0) if tk == 1 else ((0, rr + 1) if tk == 2 else (0, 0))
-        if cfg["kind"] != "bus":
+        if cfg["r"] == 0:
             rw = rr = 0
         return (hold, (a, b), r, tk in (1, 3), tk in (2, 3), rw, rr)
 
@@ -79,8 +79,9 @@ def configs(tier):
     def add(**spec):
         L.append((spec, tla_cfg(spec)))
     add(kind="bus", width=2, timeout=12, r=1)
-    add(kind="asyncfifo", depth=4, dw=1)
+    add(kind="asyncfifo", depth=4, dw=1, r=2)
     if tier == "thorough":
+        add(kind="asyncfifo", depth=4, dw=1)
         add(kind="bus", width=2, timeout=24, r=2)
         add(kind="bus", width=3, timeout=12, r=1, dset=(0, 7, 5))
         add(kind="asyncfifo", depth=4, dw=1, buffered=True)
